@@ -15,7 +15,7 @@ import (
 // C18: callback sends fire the right callback on the right trigger
 // ---------------------------------------------------------------------------------------------
 
-var c18Words = []string{"Alpha", "bravo", "CHARLIE", "Delta", "echo", "Foxtrot"}
+var c18Words = []string{"Alpha", "bravo", "CHARLIE", "Delta", "echo", "Foxtrot", "Julié", "KILÖ"}
 
 func genC18(seed uint64, run int, tier string) Scenario {
 	rs := kernel.RunSeed(seed, "C18", run)
@@ -188,6 +188,25 @@ func genC18(seed uint64, run int, tier string) Scenario {
 	}
 	sc.Class = "generic/callbacks"
 	sc.CutEnum = pickCutEnum(run, 10)
+	if r.IntN(16) == 0 {
+		// a once-callback whose function fails, and the caller using the same callback objects for
+		// a second send whose output satisfies the trigger again: "never runs twice" -- the second
+		// send must end with the once error without the function running again
+		w := pick(r, c18Words...)
+		exec.Cmds = map[string]*peer.Reply{}
+		c1, c2 := "zx "+word(r, digits, 1, 5)+"_0", "zx "+word(r, digits, 1, 5)+"_1"
+		exec.Cmds[c1] = &peer.Reply{Out: []peer.Tok{{S: "first " + w + " seen"}}}
+		exec.Cmds[c2] = &peer.Reply{Out: []peer.Tok{{S: "again " + w + " here"}}}
+		sc.Dev.Modes = []*peer.Mode{exec}
+		first := OpSpec{Kind: "callbacks", Cmd: c1, Callbacks: []CallbackSpec{{Name: "cb0", Contains: w, Once: true, Fail: true}}}
+		again := OpSpec{Kind: "callbacks", Cmd: c2, ReuseCb: true}
+		sc.Ops = []OpSpec{first, again, {Kind: "close"}}
+		sc.Holds = nil
+		sc.CutEnum = false
+		sc.Class = "generic/callbacks/once-failed"
+
+		return sc
+	}
 	if r.IntN(12) == 0 {
 		// sched-hold fault: the caller is descheduled, right after it started the reader, for longer
 		// than the operation's timeout, and no trigger ever holds (the callbacks wait for words the
@@ -251,6 +270,21 @@ func runC18(env *Env, s Scenario) {
 	}
 	rec := &sr.Recs[0]
 	if rec.Panicked {
+		return
+	}
+	if sc.Class == "generic/callbacks/once-failed" {
+		r2 := &sr.Recs[1]
+		env.Probe("once-callback-failed-then-reused")
+		switch {
+		case len(rec.CbFired) != 1 || rec.Err == nil:
+			env.Fail("wrong-outcome", "once-failed", "first send: callbacks run %q, error %v; want the callback once and its error", rec.CbFired, rec.Err)
+		case r2.Panicked:
+		case len(r2.CbFired) > 0:
+			env.Fail("once-callback-ran-twice", "", "a once-callback that had run (and failed) in an earlier send ran again in the next send with the same callback objects: %q", r2.CbFired)
+		case r2.Class != "operation":
+			env.Fail("wrong-outcome:"+r2.Class+"-instead-of-operation", "once-failed", "second send with the same callback objects returned %v; want the once-already-triggered error", r2.Err)
+		}
+
 		return
 	}
 	// the reference trigger model, stepped on the chunks the transport delivered during the op
